@@ -223,6 +223,7 @@ def select_total(ctx, rule='C12.select-total'):
         if l is not None:
             handles.add(du.root_of(l))
     returned = set()
+    unconditional = set()
     # selections: `Some(handle)` aggregates
     nsel = 0
     for bb in sorted(fn.reachable_blocks()):
@@ -237,6 +238,18 @@ def select_total(ctx, rule='C12.select-total'):
             hs_sel = du.roots_of(l)
             nsel += 1
             returned |= hs_sel
+            # is this selection unconditional with respect to the transaction ids?  (needed below: a header that is the only valid one must be selected
+            # whatever the ids say)
+            by_id = False
+            for (a, sx) in fn.control_deps_transitive(bb):
+                at = fn.term(a)
+                if at['k'] != 'switch':
+                    continue
+                _, da = du.slice_operand(at['discr'])
+                if (has_field(da, 'Meta', 'tx_id') or has_field(da, 'OldMeta', 'tx_id')) and any(x[0] == 'bin' and x[1] in ('Gt', 'Lt', 'Ge', 'Le') for x in da):
+                    by_id = True
+            if not by_id:
+                unconditional |= hs_sel
             validated = set()
             for (vb, vt, hs) in vedges:
                 if _behind_edge(fn, bb, (vb, vt)):
@@ -251,6 +264,10 @@ def select_total(ctx, rule='C12.select-total'):
         res.append(bad(rule, '%s | a validated header is never selected' % fn.qual,
                        'one of the two headers is validated but never returned: when only that header is intact, open cannot fall back to it',
                        where='%s:%d' % (fn.file, fn.line)))
+    for h in (handles & returned) - unconditional:
+        res.append(bad(rule, '%s | a header is selected only under a transaction-id comparison' % fn.qual,
+                       'one of the headers is returned only on paths that compare transaction ids: when it is the only valid header (the other one is damaged but still carries a '
+                       'higher id) it is not selected, and open / the commit error path finds no valid header', where='%s:%d' % (fn.file, fn.line)))
     f = floor(rule, 'header selections (Some(header))', nsel, 4)
     if f:
         res.append(f)
